@@ -129,6 +129,9 @@ def oracle(seed, tier):
         pts = [(Fraction(i, 2), Fraction(j, 2)) for i in range(-2 * size - 2, 2 * size + 3) for j in range(-2 * size - 2, 2 * size + 3)]
         if tier != "thorough":
             pts = rng.sample(pts, min(len(pts), 90))
+            # the boundary is always probed: every vertex and every edge midpoint (both lie on the doubled lattice)
+            extra = [(Fraction(v[0]), Fraction(v[1])) for v in poly] + [(Fraction(poly[i][0] + poly[(i + 1) % len(poly)][0], 2), Fraction(poly[i][1] + poly[(i + 1) % len(poly)][1], 2)) for i in range(len(poly))]
+            pts = pts + [e for e in extra if e not in pts]
         for p in pts:
             ins, onb = exact_inside(poly, p)
             x, y = float(p[0]) * scale + off[0], float(p[1]) * scale + off[1]
